@@ -165,6 +165,8 @@ def run_shard(shard, tier) -> Stats:
                         prob = "encode: reference decodes different frame/id"
                 except rc.RefError as e:
                     prob = "encode: " + str(e)
+                except Exception as e:  # noqa: BLE001
+                    prob = f"encode: raised {type(e).__name__}"
                 try:
                     got = _Packet.decode(rc.v2_build(frame, dev_id, magic=b"\x20\x80", tail=bytes(range(12))))
                     if got != frame:
